@@ -284,6 +284,26 @@ static void unit_loop()
         bool f = p.get_key_string_multi_value(unhex(a[0]), unhex(a[1]).c_str(), data);
         out = (cvm::get_error() != COLVARS_OK) ? "error " : (f ? "found " : "notfound ");
         for (size_t i = 0; i < data.size(); i++) out += (i ? "|" : "") + hex(data[i]);
+      } else if (cmd == "KV") {
+        // get_keyval<double> for the same keyword on ONE parser object: several texts and parse modes
+        P p;
+        std::string key = unhex(a[0]);
+        double v = 111.0;
+        std::istringstream cs(a[1]);
+        std::string one;
+        while (std::getline(cs, one, '|')) {
+          char mc = one[0];
+          std::string conf = unhex(one.substr(2));
+          colvarparse::Parse_Mode m = colvarparse::parse_silent;
+          if (mc == 'r') m = colvarparse::parse_required;
+          if (mc == 'q') m = colvarparse::parse_required | colvarparse::parse_restart;
+          if (mc == 'o') m = colvarparse::parse_override;
+          if (mc == 'n') m = colvarparse::parse_normal;
+          if (mc == 'd') m = colvarparse::parse_deprecated;
+          cvm::clear_error();
+          bool f = p.get_keyval(conf, key.c_str(), v, 222.0, m);
+          out += (out.size() ? ";" : "") + std::string(f ? "1" : "0") + "/" + (cvm::get_error() != COLVARS_OK ? "1" : "0") + "/" + vs_hex(v);
+        }
       } else if (cmd == "KS") {
         // successive key_lookup calls on ONE parser object, through ONE std::string object (same address every time)
         P p;
